@@ -55,7 +55,7 @@ func (rs *Resolved) validateDefaults() error {
 	for s := range rs.root.all() {
 		// We checked for nil schemas in [Schema.Resolve].
 		assert(s != nil, "nil schema")
-		if s.DynamicRef != "" {
+		if s.DynamicRef != "" && rs.draft != draft7 {
 			return fmt.Errorf("jsonschema: %s: validateDefaults does not support dynamic refs", rs.schemaString(s))
 		}
 		if s.Default != nil {
@@ -205,7 +205,9 @@ func (st *state) validate(instance reflect.Value, schema *Schema, callerAnns *an
 	}
 
 	// $dynamicRef: https://json-schema.org/draft/2020-12/json-schema-core#section-8.2.3.2
-	if schema.DynamicRef != "" {
+	// (draft-07 has no $dynamicRef: there it is an unknown keyword, and it is left unresolved
+	// in a document that declares draft-07.)
+	if schema.DynamicRef != "" && st.rs.draft != draft7 && (schemaInfo.resolvedDynamicRef != nil || schemaInfo.dynamicRefAnchor != "") {
 		// The ref behaves lexically or dynamically, but not both.
 		assert((schemaInfo.resolvedDynamicRef == nil) != (schemaInfo.dynamicRefAnchor == ""),
 			"DynamicRef not resolved properly")
